@@ -35,7 +35,7 @@ PARSER_TRUST = ['A4 the scanner is an arbitrary deterministic token source: Scan
 PROPS['C01'] = {
     'units': ['parser', 'loader'],
     'level': 'proof',
-    'claim': 'Panic-freedom and termination as verifier-generated obligations on the real code: every unwrap/expect/unreachable!/assert_eq!/overflow site of parser.rs (pop_state, fetch_token, the four unreachable!() of parse_node, State::End arm, load_node unreachable!, load_document assert_eq!) is discharged from the state-stack invariant and the event grammar; the token loops of document_start and parser_process_directives carry decreases clauses; every delivered event strictly decreases the measure 4*|upcoming tokens| + rank(state, next token), which gives termination of load / load_node / load_sequence / load_mapping (loop and recursion decreases clauses). char_traits.rs, all 34 Input trait methods (provided ones against the abstract input contract), the StrInput char-iterator methods and the scanner position helpers are verified panic-free under their contracts. The scanner's token pump (fetch_next_token, fetch_more_tokens with the decreases clause pump_measure, next_token) and everything it calls except scan_block_scalar's body is verified panic-free and terminating under the scanner invariant sc_inv. Unit loader: every unwrap / unreachable! of YamlLoader::on_event and insert_new_node is discharged from the admissibility of the event. All token streams / all inputs, no bound.',
+    'claim': 'Panic-freedom and termination as verifier-generated obligations on the real code: every unwrap/expect/unreachable!/assert_eq!/overflow site of parser.rs (pop_state, fetch_token, the four unreachable!() of parse_node, State::End arm, load_node unreachable!, load_document assert_eq!) is discharged from the state-stack invariant and the event grammar; the token loops of document_start and parser_process_directives carry decreases clauses; every delivered event strictly decreases the measure 4*|upcoming tokens| + rank(state, next token), which gives termination of load / load_node / load_sequence / load_mapping (loop and recursion decreases clauses). char_traits.rs, all 34 Input trait methods (provided ones against the abstract input contract), the StrInput char-iterator methods and the scanner position helpers are verified panic-free under their contracts. The token pump of the scanner (fetch_next_token, fetch_more_tokens with the decreases clause pump_measure, next_token) and everything it calls except the body of scan_block_scalar is verified panic-free and terminating under the scanner invariant sc_inv. Unit loader: every unwrap / unreachable! of YamlLoader::on_event and insert_new_node is discharged from the admissibility of the event. All token streams / all inputs, no bound.',
     'technique': 'Verus: safety obligations (unwrap, unreachable!, assert_eq!, arithmetic) discharged from contracts and invariants; decreases clauses for termination',
     'not_decided': [
         'linear work bound (no cost model in the verifier)',
